@@ -134,14 +134,41 @@ ListRecs == { [r EXCEPT !.mayRefuse = ScriptListLen(r) > Max16] :
               r \in [what : {"lists"}, ns : 1..3, nl : {0, 1, 3}, dflt : {0, 1}, nopt : {0, 1, 4},
                      req : {0, 65535}, nf : {0, 1, 3}, nlk : {0, 1, 3}, mayRefuse : {FALSE}]
                  \cup [what : {"lists"}, ns : 1..3, nl : {0, 1}, dflt : {1}, nopt : {11000},
-                        req : {65535}, nf : {1}, nlk : {1}, mayRefuse : {FALSE}] }
+                        req : {65535}, nf : {1}, nlk : {1}, mayRefuse : {FALSE}]
+                 \* counts at the 8-bit carry: language systems, optional features, features, lookups of a feature
+                 \cup [what : {"lists"}, ns : {1}, nl : {255, 256, 257}, dflt : {0, 1}, nopt : {1},
+                        req : {65535}, nf : {1}, nlk : {1}, mayRefuse : {FALSE}]
+                 \cup [what : {"lists"}, ns : {1}, nl : {1}, dflt : {1}, nopt : {255, 256, 257},
+                        req : {0}, nf : {1}, nlk : {1}, mayRefuse : {FALSE}]
+                 \cup [what : {"lists"}, ns : {1}, nl : {1}, dflt : {1}, nopt : {1},
+                        req : {65535}, nf : {255, 256, 257}, nlk : {1}, mayRefuse : {FALSE}]
+                 \cup [what : {"lists"}, ns : {1}, nl : {1}, dflt : {1}, nopt : {1},
+                        req : {65535}, nf : {2}, nlk : {255, 256, 257, 300}, mayRefuse : {FALSE}] }
+
+\* counts at the 8-bit carry (a count or size whose high byte becomes non-zero): always realised
+BoundaryRecs == [what : {"shape"}, k : Kinds, n : {255, 256, 257}, m : {1}, c : {0, 1}, v : {2}, f : {1}, mayRefuse : {FALSE}]
+           \cup [what : {"shape"}, k : Kinds, n : {1}, m : {255, 256, 257}, c : {0}, v : {2}, f : {0}, mayRefuse : {FALSE}]
+
+\* reader-side geometry: many small lookups with flags and mark filtering sets behind a script list
+\* of pad bytes, so that Lookup tables lie at every phase of a reader's buffer; lookups with many
+\* subtables; lookup and subtable counts at the 8-bit carry.  nsub = 0: 1 + i mod 3 subtables.
+GeomRecs == [what : {"geom"}, nl : {40, 100, 300}, nsub : {0}, pad : {20, 122, 284, 530, 792, 1000}]
+       \cup [what : {"geom"}, nl : {255, 256, 257}, nsub : {1}, pad : {20}]
+       \cup [what : {"geom"}, nl : {2}, nsub : {2, 255, 256, 257, 509, 510, 511, 600}, pad : {20, 530}]
+
+\* every script tag and every language tag of the built-in tables of the tree under test appears in
+\* one of NSweep script lists (the harness reads the tables from locale.go and cuts them in chunks)
+NSweep == 64
+SweepRecs == [what : {"lists"}, sweep : 1..NSweep, nsweep : {NSweep}, ns : {0}, nl : {0}, dflt : {1}, nopt : {2},
+              req : {65535}, nf : {1}, nlk : {2}, mayRefuse : {FALSE}]
 
 Recs == CASE Mode = "shape" -> ShapeRecs
           [] Mode = "huge"  -> HugeRecs
           [] Mode = "gdef"  -> GdefRecs
           [] Mode = "lists" -> ListRecs
           [] Mode = "off"   -> OffCases \cup FieldRecs
-          [] Mode = "all"   -> ShapeRecs \cup HugeRecs \cup OffCases \cup FieldRecs \cup GdefRecs \cup ListRecs
+          [] Mode = "all"   -> ShapeRecs \cup BoundaryRecs \cup HugeRecs \cup OffCases \cup FieldRecs \cup GdefRecs
+                               \cup ListRecs \cup SweepRecs \cup GeomRecs
 
 Init == rec \in Recs
 Next == UNCHANGED rec
